@@ -372,7 +372,8 @@ func (w *World) BuildMsg(e Event) (msg sdk.Msg, commit func()) {
 		return m, func() {
 			w.Bot.Batches[w.Bot.NextPid] = &batch{IDs: ids, Txs: [][]byte{tx}, Open: true, InBlock: map[int]uint64{}}
 			w.Bot.NextPid++
-			w.Bot.Pending = w.Bot.Pending[n:]
+			w.Bot.Pending = without(w.Bot.Pending, ids)
+			w.Bot.Canceling = without(w.Bot.Canceling, ids)
 		}
 	case "tx:finalize":
 		// the oldest open batch whose latest candidate is in a voted block (or in a block voted
@@ -417,6 +418,27 @@ func (w *World) BuildMsg(e Event) (msg sdk.Msg, commit func()) {
 			return m, func() { b.Open = false }
 		}
 		return nil, nil
+	case "tx:replace":
+		pids := make([]uint64, 0)
+		for pid, b := range w.Bot.Batches {
+			if b.Open {
+				pids = append(pids, pid)
+			}
+		}
+		if len(pids) == 0 {
+			return nil, nil
+		}
+		sort.Slice(pids, func(i, j int) bool { return pids[i] < pids[j] })
+		pid := pids[0]
+		b := w.Bot.Batches[pid]
+		var outs []sim.BtcOut
+		for range b.IDs {
+			outs = append(outs, sim.BtcOut{Value: 89000, Script: w.UserScr})
+		}
+		tx := sim.BtcTx(uint32(60000+pid*16+uint64(len(b.Txs))), outs...)
+		m := &bitcointypes.MsgReplaceWithdrawal{Proposer: rel.Proposer, Pid: pid, NewNoWitnessTx: tx, NewTxFee: uint64(len(tx)) + uint64(len(b.Txs))}
+		m.Vote = w.Vote(m.MethodName(), m.VoteSigDoc())
+		return m, func() { b.Txs = append(b.Txs, tx) }
 	case "tx:approve":
 		if len(w.Bot.Canceling) == 0 {
 			return nil, nil
@@ -745,6 +767,22 @@ func (w *World) Run(b ABlock) *Result {
 	}
 	res.commitBot(res.Finalize)
 	return res
+}
+
+func without(list, drop []uint64) []uint64 {
+	var out []uint64
+	for _, x := range list {
+		keep := true
+		for _, d := range drop {
+			if d == x {
+				keep = false
+			}
+		}
+		if keep {
+			out = append(out, x)
+		}
+	}
+	return out
 }
 
 func max64(a, b int64) int64 {
